@@ -210,6 +210,16 @@ def run(ctx):
         ctx.count()
         ctx.mark(('reap-after-reuse', maxchan), True)
         ctx.hist('kind=reap-after-reuse')
+    for tag, fn in ([('burst-%d' % n, (lambda n=n: tg.burst_in_one_read(ctx, rng, 'C02', n))) for n in (40, 130)] +
+                    [('failure-%s-%s' % (w_, f_), (lambda w_=w_, f_=f_: tg.failure_tears_down(ctx, rng, 'C02', w_, f_)))
+                     for w_ in ('app', 'dst') for f_ in ('recv', 'send')] +
+                    [('closed-app-streaming-dst', lambda: tg.closed_app_streaming_dst(ctx, rng, 'C02'))]):
+        ins, outs = fn()
+        all_in.append(ins)
+        all_out.append(outs)
+        ctx.count()
+        ctx.mark(('directed', tag), True)
+        ctx.hist('kind=directed:' + tag.split('-')[0])
     for which in ('dst', 'app'):
         ins, outs = reader_closed_keeps_sending(ctx, rng, which)
         all_in.append(ins)
